@@ -168,6 +168,79 @@ impl InnerProductArgPC {
 //@end
 }
 
+pub uninterp spec fn scp_coeffs(u: Seq<FS>) -> Seq<FS>;   // coefficient vector of h(X) = prod (1 + u_i X^(2^(k-i)))  [compute_coeffs is outside the verified text]
+impl SuccinctCheckPolynomial {
+    #[verifier::external_body] pub fn compute_coeffs(&self) -> (r: Vec<Fr>) ensures fviews(r@) == scp_coeffs(fviews(self.0@)) { unimplemented!() }
+}
+pub struct IpaPC;
+impl IpaPC {
+//@stub from=ipa.rs id=ipa.succinct_check
+//@stub from=ipa.rs id=ipa.cm_commit
+//@fn id=ipa.check file=poly-commit/src/ipa_pc/mod.rs scope="impl<G, D, P> PolynomialCommitment<G::ScalarField, P> for InnerProductArgPC<G, D, P>" name=check props=C10,C02,C03,C19,C11
+    fn check<'a>(vk: &VerifierKey, commitments: Vec<&'a LabeledCommitment<Commitment>>, point: &'a Fr, values: Vec<Fr>, proof: &Proof, sponge: &mut Sponge, _rng: Option<&mut Rng>) -> (res: Result<bool, Error>)
+    requires
+        vk.comm_key@.len() >= 1, vk.comm_key@.len() <= 0x4000_0000,      // (31 or more rounds overflow the i32 shifts of the check polynomial and abort)
+        forall|i: int| 0 <= i < commitments@.len() ==> ((#[trigger] commitments@[i]).degree_bound is Some ==> commitments@[i].degree_bound->Some_0 <= vk.comm_key@.len() - 1),
+    ensures
+        // one (L, R) pair per halving round: exactly ceil(log2(key length)) of each, otherwise an error
+        (res is Err) == !(proof.l_vec@.len() == proof.r_vec@.len() && is_ceil_log2(vk.comm_key@.len(), proof.l_vec@.len())),   // name=ipa.check.round_count_is_log_of_key_length props=C03,C19
+        // accepted iff the succinct relation holds and the final key is the commitment to the check polynomial's coefficients
+        res is Ok ==> (res->Ok_0 <==> (ipa_relation(vk, commitments@, values@, *point, proof, old(sponge).st@, min(commitments@.len(), values@.len()))
+            && ipa_final_key(vk, ipa_u(vk, commitments@, values@, *point, proof, old(sponge).st@, min(commitments@.len(), values@.len()))) == proof.final_comm_key@)),   // name=ipa.check.accepts_iff_relation_and_final_key props=C10,C02,C03
+        res is Ok ==> final(sponge).st@ == sp_iter(old(sponge).st@, 1 + 2 * min(commitments@.len(), values@.len())),   // name=ipa.check.squeeze_schedule props=C11
+//@body
+//@rw 1 /vk\.supported_degree\(\)/ => (vk.comm_key.len() - 1)
+//@rw 1 /check_poly\.unwrap\(\)/ => check_poly.unwrap_abort()
+//@rw 1 /Self::succinct_check\(vk, commitments, \*point, values, proof, sponge\)/ => Self::succinct_check(vk, commitments, *point, values, proof, sponge)
+//@before /if proof\.l_vec\.len\(\) != proof\.r_vec\.len\(\)/
+        proof {
+            assert(is_ceil_log2(vk.comm_key@.len(), log_d as nat));
+            if is_ceil_log2(vk.comm_key@.len(), proof.l_vec@.len()) { lemma_log_unique(vk.comm_key@.len(), log_d as nat, proof.l_vec@.len()); }
+        }
+//@before /let check_poly = Self::succinct_check/
+        proof { lemma_log_le_30(vk.comm_key@.len() as nat, log_d as nat); }
+//@after /let check_poly = Self::succinct_check/
+        proof {
+            let n = min(commitments@.len(), values@.len());
+            assert((check_poly is Some) == ipa_relation(vk, commitments@, values@, *point, proof, old(sponge).st@, n));
+        }
+//@after /let final_key = Self::cm_commit\(/
+        proof {
+            let n = min(commitments@.len(), values@.len());
+            lemma_sub_zero_iff(final_key@, proof.final_comm_key@);
+            broadcast use ax_add_zero;
+            assert(fviews(check_poly->Some_0.0@) == ipa_u(vk, commitments@, values@, *point, proof, old(sponge).st@, n));
+            assert(final_key@ == ipa_final_key(vk, ipa_u(vk, commitments@, values@, *point, proof, old(sponge).st@, n)));
+        }
+//@end
+}
+// k = ceil(log2 n): the least k with n <= 2^k
+pub open spec fn is_ceil_log2(n: nat, k: nat) -> bool { n <= p2(k) && (n > 1 ==> p2((k - 1) as nat) < n) && (n <= 1 ==> k == 0) }
+// the round challenges u_1..u_k of a transcript, and the key the verifier recomputes from them
+pub open spec fn ipa_u(vk: &VerifierKey, cs: Seq<&LabeledCommitment<Commitment>>, vs: Seq<Fr>, z: Fr, pr: &Proof, s: SS, n: nat) -> Seq<FS> {
+    let v = ipa_acc_v(cs, vs, z@, (vk.comm_key@.len() - 1) as nat, s, n);
+    ipa_rcs(ipa_first(ipa_comb(vk, cs, vs, z, pr, s, n), z@, v), pr.l_vec@, pr.r_vec@, min(pr.l_vec@.len(), pr.r_vec@.len()))
+}
+pub open spec fn ipa_final_key(vk: &VerifierKey, u: Seq<FS>) -> FS { msm(vk.comm_key@, scp_coeffs(u), min(vk.comm_key@.len(), scp_coeffs(u).len())) }
+pub proof fn lemma_log_unique(n: nat, r: nat, k: nat)
+    requires is_ceil_log2(n, r), is_ceil_log2(n, k)
+    ensures r == k
+{
+    if k < r { lemma_p2_mono(k, (r - 1) as nat); } else if r < k { lemma_p2_mono(r, (k - 1) as nat); }
+}
+pub proof fn lemma_p2_pos(k: nat) ensures p2(k) >= 1 decreases k { if k > 0 { lemma_p2_pos((k - 1) as nat); } }
+pub proof fn lemma_p2_mono(a: nat, b: nat) requires a <= b ensures p2(a) <= p2(b) decreases b
+{ if a < b { lemma_p2_mono(a, (b - 1) as nat); } }
+// a key of at most 2^30 elements has at most 30 halving rounds (the i32 shifts downstream overflow from 31 on: see succinct_check's precondition)
+pub proof fn lemma_log_le_30(n: nat, r: nat)
+    requires n >= 1, n <= 0x4000_0000, n > 1 ==> p2((r - 1) as nat) < n, n <= 1 ==> r == 0
+    ensures r <= 30
+{
+    if r > 30 { lemma_p2_mono(30, (r - 1) as nat); assert(p2(30) == 0x4000_0000) by (compute_only); }
+}
+pub proof fn lemma_sub_zero_iff(a: FS, b: FS) ensures (f_sub(a, b) == f_zero()) == (a == b)
+{ if f_sub(a, b) == f_zero() { lemma_sub_zero_eq(a, b); } else if a == b { lemma_sub_self(a); } }
+
 impl SuccinctCheckPolynomial {
 //@fn id=ipa.SuccinctCheckPolynomial.evaluate file=poly-commit/src/ipa_pc/data_structures.rs scope="impl<F: Field> SuccinctCheckPolynomial<F>" name=evaluate props=C16,C10
     pub fn evaluate(&self, point: Fr) -> (r: Fr)
